@@ -197,7 +197,21 @@ def hashname(alg, data):
     return hashlib.new(alg, data).hexdigest()
 
 
-def check_layout(ctx, case, k, files, tags_api):
+def blob_api_deleted(case, io, k, repo, digest):
+    """the blob <digest> of <repo> was last removed by an acknowledged DELETE /blobs/ before step k (finding F64)"""
+    gone = False
+    for j in range(k):
+        st, r = case["steps"][j], io["steps"][j]
+        if st.get("repo") != repo:
+            continue
+        if st["kind"] == "blobdel" and st.get("arg") == digest and r.get("status") == 202:
+            gone = True
+        elif r.get("status") == 201 and (r.get("headers") or {}).get("Docker-Content-Digest", [""])[0] == digest:
+            gone = False
+    return gone
+
+
+def check_layout(ctx, case, k, files, tags_api, io=None):
     """files: snapshot of the root directory; every directory holding index.json must be a valid layout equal to the API state"""
     by = {f["path"]: f for f in files}
     rep = lambda **kw: oracles.hist(case, k, None, **kw)
@@ -237,6 +251,8 @@ def check_layout(ctx, case, k, files, tags_api):
             bf = by.get("%sblobs/%s/%s" % (pre, alg, hx))
             if bf is None:
                 sig = "C10:entry-without-blob"
+                if io is not None and blob_api_deleted(case, io, k, repo, d["digest"]):
+                    sig = "C10:entry-without-blob-after-blob-api-delete"
                 ctx.violation("index.json of %s lists %s (%s) but blobs/%s/%s does not exist" % (repo, d["digest"], t or "untagged", alg, hx), rep(repo=repo, index=idx), sig)
                 return
             if bf["size"] != d.get("size"):
@@ -337,7 +353,7 @@ def oracle(ctx, case, io):
                         tags_api[steps[j]["repo"]] = json.loads(base64.b64decode(res[j].get("b64") or "")).get("tags") or []
                     except Exception:
                         pass
-            check_layout(ctx, case, k, r.get("files") or [], tags_api)
+            check_layout(ctx, case, k, r.get("files") or [], tags_api, io)
         mk = st.get("rprobe")
         if mk:
             c = canon_impl(dict(st, model=None), r, sids)
